@@ -169,6 +169,12 @@ func (x *Exec) intrinsic(fn *ssa.Function, args []Val) (Val, bool) {
 			ts = append(ts, e.(Int))
 		}
 		return x.grammarAccepts(ts), true
+	case "verifFinite":
+		f := args[0].(Flt)
+		if f.T == "" {
+			return Bool{C: !math.IsNaN(f.C) && !math.IsInf(f.C, 0)}, true
+		}
+		return x.nmB(Bool{T: "(not (or (fp.isNaN " + f.T + ") (fp.isInfinite " + f.T + ")))"}), true
 	case "verifNative":
 		return Bool{C: false}, true
 	case "verifCatch":
@@ -285,7 +291,7 @@ func (x *Exec) strParts(vs []Val) []Str {
 
 // ---------- standard library stubs and models ----------
 func (x *Exec) external(fn *ssa.Function, args []Val) (Val, bool) {
-	name := fn.String()
+	name := x.fname(fn)
 	if strings.HasSuffix(name, ".init") && fn.Synthetic != "" {
 		if name == "unicode/utf8.init" || x.P.isSUTName(name) {
 			return nil, false
